@@ -25,7 +25,7 @@ func TestMain(m *testing.M) { kit.Main(m) }
 var ev = kit.Ev("C06")
 
 func init() {
-	ev.Rule("a history over a small pool of sessions on one real server: establish (with/without key, authenticated by CLAIMTOBE or not), honest resume (both directions recorded), " +
+	ev.Rule("a history over a small pool of sessions on one real server: establish (with/without key, authenticated by CLAIMTOBE, by TOKEN or not at all; or minted from a claim id), honest resume (both directions recorded), " +
 		"expire (virtual time through the hook; lazy or by sweep), invalidate, and attacks from a scripted requester on a new connection: right id + right key (control) / wrong key / no key, " +
 		"unknown id, id differing in one character of each field, each with and without a reply requested, and byte-for-byte replays of either direction of a recorded resumed connection (whole and cut after each frame); " +
 		"oracle: reference session table (alive, has key, identity, authenticated) decides whether the server may return success and with which identity; a requester that asked for a reply to a dead/unknown id reads SID_NOT_FOUND; " +
@@ -80,7 +80,8 @@ type sess struct {
 }
 
 func serverConfig() *security.SecurityConfig {
-	c := kit.BaseConfig(security.SecurityOptional, security.SecurityOptional, security.AuthClaimToBe)
+	c := kit.BaseConfig(security.SecurityOptional, security.SecurityOptional, security.AuthClaimToBe, security.AuthToken)
+	tokenEnv.Apply(nil, c)
 	c.SessionCache = ownCache
 	if mapIdentity {
 		c.PostAuthPolicy = func(authUser, peerAddr string, authenticated, encrypted bool) (string, []int) {
@@ -94,6 +95,8 @@ func serverConfig() *security.SecurityConfig {
 	c.SessionLease = 1800
 	return c
 }
+
+var tokenEnv = kit.NewTokenEnv()
 
 type world struct {
 	sessions []*sess
@@ -185,16 +188,24 @@ func (w *world) establishMinted(variant int) string {
 }
 
 func (w *world) establish(variant int) string {
-	if variant >= 4 {
+	// 0-3: negotiated with CLAIMTOBE or no authentication; 4-5: minted from a claim id; 6-7: negotiated with
+	// TOKEN authentication (which leaves its own 32-byte exchange secret on the negotiation even when no
+	// cipher is agreed: such a session carries no key to protect a stream with and is never resumed)
+	variant %= 8
+	if variant == 4 || variant == 5 {
 		return w.establishMinted(variant)
 	}
 	withKey := variant&1 == 0
-	authed := variant&2 == 0
+	authed := variant&2 == 0 || variant >= 6
 	lvl := security.SecurityNever
 	if authed {
 		lvl = security.SecurityRequired
 	}
 	ccfg := kit.BaseConfig(lvl, security.SecurityOptional, security.AuthClaimToBe)
+	if variant >= 6 {
+		ccfg.AuthMethods = []security.AuthMethod{security.AuthToken}
+		tokenEnv.Apply(ccfg, nil)
+	}
 	ccfg.PeerName = fmt.Sprintf("<127.0.0.1:96%02d>", len(w.sessions))
 	if !withKey {
 		ccfg.CryptoMethods = []security.CryptoMethod{security.CryptoBlowfish}
@@ -708,7 +719,7 @@ func genCase(t *rapid.T) Case {
 	var c Case
 	c.Own = rapid.Bool().Draw(t, "own")
 	c.Map = rapid.Bool().Draw(t, "map")
-	c.Ops = append(c.Ops, Op{K: "establish", V: rapid.IntRange(0, 5).Draw(t, "v0")})
+	c.Ops = append(c.Ops, Op{K: "establish", V: rapid.IntRange(0, 7).Draw(t, "v0")})
 	n := rapid.IntRange(3, 12).Draw(t, "nops")
 	for i := 0; i < n; i++ {
 		k := rapid.SampledFrom([]string{"establish", "resume", "resume", "expire", "invalidate", "invalidate-inflight", "attack", "attack", "attack", "replay", "replay"}).Draw(t, "op")
@@ -750,7 +761,7 @@ func TestC06Histories(t *testing.T) {
 // TestC06Sweep: every attack kind at every point of a session's lifetime.
 func TestC06Sweep(t *testing.T) {
 	bad := 0
-	for est := 0; est < 6; est++ {
+	for est := 0; est < 8; est++ {
 		for _, life := range []string{"fresh", "resumed1", "resumed3", "expired-lazy", "expired-swept", "invalidated", "invalidated-inflight"} {
 			for kind := 0; kind < 9; kind++ {
 				for _, rr := range []bool{true, false} {
@@ -793,7 +804,7 @@ func TestC06Sweep(t *testing.T) {
 		}
 	}
 	// every hostile request-ad attribute set, for each kind of requester, on a live session
-	for est := 0; est < 4; est++ {
+	for _, est := range []int{0, 1, 2, 3, 6, 7} {
 		for x := 1; x < len(resumeExtras); x++ {
 			for kind := 0; kind < 3; kind++ {
 				for _, rr := range []bool{true, false} {
@@ -811,8 +822,8 @@ func TestC06Sweep(t *testing.T) {
 			}
 		}
 	}
-	ev.Exhaustive("4 establishment kinds x 12 hostile request-ad attribute sets x {key holder, wrong key, no key} x {reply requested, not} x {global, own cache}")
-	ev.Exhaustive("6 establishment kinds (4 negotiated, 2 minted from a claim id) x 7 lifetime points (incl. invalidated while a resumption was in flight) x 9 attack kinds x {reply requested, not} x {server on the global cache, server with its own cache}, each followed by an honest resume and replays of both directions")
+	ev.Exhaustive("6 establishment kinds x 12 hostile request-ad attribute sets x {key holder, wrong key, no key} x {reply requested, not} x {global, own cache}")
+	ev.Exhaustive("8 establishment kinds (4 negotiated with CLAIMTOBE/none, 2 minted from a claim id, 2 negotiated with TOKEN: with a cipher and without) x 7 lifetime points (incl. invalidated while a resumption was in flight) x 9 attack kinds x {reply requested, not} x {server on the global cache, server with its own cache}, each followed by an honest resume and replays of both directions")
 }
 
 func TestC06Replay(t *testing.T) {
